@@ -97,6 +97,34 @@ def run(chk):
     core.differential(chk, "docs_treeinfo:discinfo", dcases, "dump_di", model_cases=[c["desc"] for c in dcases], impl_fn="impl_discinfo",
                       oracle=oracle_di, nontrivial=lambda c, r: c["desc"]["disc_numbers"] != ["ALL"],
                       normalise=lambda r: r[:2] if (isinstance(r, list) and r and r[0] == "ok") else r)
+    # the .discinfo READER on arbitrary texts: model reader (load_di) vs DiscInfo.loads, and what the re-read object writes
+    tcases = S.gen_discinfo_texts(rng, 4 * N[chk.tier])
+    ir = core.ImplRunner("docs_treeinfo", fn="impl_load_discinfo", per_case_timeout=10.0)
+    try:
+        tres = ir.run(tcases)
+    finally:
+        ir.close()
+    tm = core.run_model([wire.encode_line("load_di", c["text"]) for c in tcases])
+    rdis, skipped, agree_ok, agree_err = 0, 0, 0, 0
+    for c, r, m in zip(tcases, tres, tm):
+        if m == ["err", "OtherError"]:
+            skipped += 1                  # float() of a token outside the modelled (canonical) ones
+            continue
+        if core.canon(r) != core.canon(m):
+            rdis += 1
+            if rdis <= 3:
+                chk.obligation("suite:docs_treeinfo:discinfo_reader[%d]" % rdis, False,
+                               "on %r impl %s vs model %s" % (c["text"], core.canon(r)[:200], core.canon(m)[:200]))
+        elif r[0] == "ok":
+            agree_ok += 1
+        else:
+            agree_err += 1
+    chk.add_cases(tcases, [isinstance(r, list) and r and r[0] == "ok" for r in tres])
+    chk.traces += len(tcases)
+    chk.obligation("suite:docs_treeinfo:discinfo_reader", rdis == 0 and agree_ok > 0 and agree_err > 0,
+                   "%d disagreements, %d accepted alike, %d refused alike, %d outside the float model" % (rdis, agree_ok, agree_err, skipped))
+    chk.record_suite("docs_treeinfo:discinfo_reader", {"cases": len(tcases), "disagreements": rdis, "accepted_alike": agree_ok,
+                                                        "refused_alike": agree_err, "outside_float_model": skipped})
     # the same cycle through file paths, in child interpreters whose locale encoding is and is not UTF-8: whatever is written is read back
     lcases = [{"env": e} for e in ({"LC_ALL": "C.UTF-8", "LANG": "C.UTF-8"},
                                    {"LC_ALL": "C", "LANG": "C", "PYTHONUTF8": "0", "PYTHONCOERCECLOCALE": "0"},
